@@ -12,7 +12,19 @@ def jobs(tier):
             object_bits=10, solver='cadical', timeout=600),
         Job('va_block_arg_builtin', H, 'h_va_block_arg', enforce='va_block_arg_builtin', defines={'NDEBUG': None},
             unwind=20, object_bits=10, solver='cadical', timeout=600),
+        frame_job(),
     ]
 
 
-META = {'functions': ['va_arg_builtin', 'va_block_arg_builtin'], 'undecided_part': '', 'trusted_base': ['contracts/va.h (x86-64 psABI 3.5.7)', 'models/libc.h']}
+def frame_job():
+    j = Job('frame.save_restore_pairing', 'harness/c06_frame.c', 'h_frame_pairing', defines={'NDEBUG': None}, unwind=3, object_bits=10, solver='cadical',
+            timeout=300, no_standard_checks=True,
+            ops=[('slice_rhs', 'target_make_prolog_epilog', r'\boffset\s*=\s*(gen_ctx->target_ctx->keep_fp_p\s*\?[^;]*);',
+                  ['static int64_t vp_save_start (gen_ctx_t gen_ctx, int64_t bp_saved_reg_offset, size_t stack_slots_size, size_t stack_slots_num)',
+                   'static int64_t vp_restore_start (gen_ctx_t gen_ctx, int64_t bp_saved_reg_offset, size_t stack_slots_size, size_t stack_slots_num)'])],
+            scope=['vp_save_start', 'vp_restore_start'])
+    j.count_funcs = {'vp_save_start', 'vp_restore_start'}
+    return j
+
+
+META = {'functions': ['va_arg_builtin', 'va_block_arg_builtin', 'target_make_prolog_epilog (save/restore start offsets, sliced)'], 'undecided_part': '', 'trusted_base': ['contracts/va.h (x86-64 psABI 3.5.7)', 'models/libc.h']}
